@@ -24,7 +24,8 @@ RULE = (
     "Cid per run. Oracle (own arithmetic, no cutplace): rejection reported iff header < bad row number <= limit "
     "(None = no limit, row numbers count header rows); rows() returns every data row after the header unchanged "
     "(also beyond the limit) with a DataError in place of the reported row; validate raises a DataError iff so; "
-    "main exits 1 iff so, else 0. Family 'fault': g in 0..5 good rows followed by a container fault at row g+1 "
+    "main exits 1 iff so, else 0 (thorough: r up to 8, and delimited/fixed data also given to the API as a path). "
+    "Family 'fault': g in 0..5 good rows followed by a container fault at row g+1 "
     "(delimited: unterminated quote, optionally followed by one more line; fixed: a record that is too short) x "
     "header 0..3 x limit in {None, 0..g+2}, observer cutplace.validate: no limit -> DataFormatError; fault beyond "
     "row header+N -> no error (reading stopped); header < fault row <= N -> DataError; the rest is neutral. "
@@ -203,26 +204,34 @@ def observe(sub, case, table, source, cid_path=None):
     fmt, header, bad, limit, observer = case["fmt"], case["header"], case["bad"], case["limit"], case["observer"]
     reported = is_reported(header, bad, limit)
     zone = zone_of(header, bad, limit)
+    # an unexpected rejection is filed under what the table offers to reject: a header row the fields would refuse
+    # (column titles, or the bad row inside the header), else the bad row behind the limit, else nothing at all
+    if (case.get("style") == "titles" and header > 0) or zone == "header":
+        zone_text = "rejectable-header-row"
+    elif zone == "beyond-limit":
+        zone_text = "bad-row-beyond-limit"
+    else:
+        zone_text = "only-good-rows-unreported"
     sub.evaluations += 1
 
     def stream():
-        if fmt in ("delimited", "fixed"):
+        if fmt in ("delimited", "fixed") and not observer.endswith("-path"):
             return io.StringIO(source, newline="")
         return source
 
-    if observer == "rows":
+    if observer in ("rows", "rows-path"):
         cid = cidlib.load_cid(cid_rows(fmt, header))
         try:
             out = list(cutplace.rows(cid, stream(), on_error="yield", validate_until=limit))
         except Exception as error:
-            _fail(sub, "C07|rows|raised-%s|%s|%s" % (type(error).__name__, zone, fmt), case,
+            _fail(sub, "C07|rows|raised-%s|%s" % (type(error).__name__, fmt), case,
                      "cutplace.rows(on_error='yield', validate_until=%r) raised %s: %s; table %r" % (
                          limit, type(error).__name__, error, table))
             return
         expected = table[header:]
         if len(out) != len(expected):
             what = "header-row-returned" if len(out) > len(expected) else "data-row-missing"
-            _fail(sub, "C07|rows|%s|%s|%s" % (what, zone, fmt), case,
+            _fail(sub, "C07|rows|%s|%s" % (what, fmt), case,
                      "header %d, %d rows: expected %d items, got %d: %r" % (
                          header, len(table), len(expected), len(out), out))
             return
@@ -230,20 +239,20 @@ def observe(sub, case, table, source, cid_path=None):
             number = header + 1 + offset
             if number == bad and reported:
                 if not isinstance(item, errors.DataError):
-                    _fail(sub, "C07|rows|rejection-missing|%s|%s" % (zone, fmt), case,
+                    _fail(sub, "C07|rows|rejection-missing|%s" % fmt, case,
                              "row %d (%r) must be reported with header %d and limit %r but came back as %r" % (
                                  number, row, header, limit, item))
                     return
             elif isinstance(item, Exception):
-                _fail(sub, "C07|rows|unexpected-rejection|%s|%s" % (zone, fmt), case,
+                _fail(sub, "C07|rows|unexpected-rejection-%s|%s" % ("bad-row-beyond-limit" if number == bad else "good-row", fmt), case,
                          "row %d (%r) must be returned unvalidated/accepted with header %d and limit %r but was "
                          "reported: %s" % (number, row, header, limit, item))
                 return
             elif item != row:
-                _fail(sub, "C07|rows|row-changed|%s|%s" % (zone, fmt), case,
+                _fail(sub, "C07|rows|row-changed|%s" % fmt, case,
                          "row %d is %r, expected %r (header %d, limit %r)" % (number, item, row, header, limit))
                 return
-    elif observer == "validate":
+    elif observer in ("validate", "validate-path"):
         cid = cidlib.load_cid(cid_rows(fmt, header))
         try:
             cutplace.validate(cid, stream(), validate_until=limit)
@@ -251,16 +260,16 @@ def observe(sub, case, table, source, cid_path=None):
         except errors.DataError as error:
             raised = error
         except Exception as error:
-            _fail(sub, "C07|validate|raised-%s|%s|%s" % (type(error).__name__, zone, fmt), case,
+            _fail(sub, "C07|validate|raised-%s|%s" % (type(error).__name__, fmt), case,
                      "cutplace.validate(validate_until=%r) raised %s: %s; table %r" % (
                          limit, type(error).__name__, error, table))
             return
         if reported and raised is None:
-            _fail(sub, "C07|validate|rejection-missing|%s|%s" % (zone, fmt), case,
+            _fail(sub, "C07|validate|rejection-missing|%s" % fmt, case,
                      "bad row %d (%r), header %d, limit %r: validate must raise but returned" % (
                          bad, table[bad - 1], header, limit))
         elif not reported and raised is not None:
-            _fail(sub, "C07|validate|unexpected-rejection|%s|%s" % (zone, fmt), case,
+            _fail(sub, "C07|validate|unexpected-rejection-%s|%s" % (zone_text, fmt), case,
                      "bad row %r, header %d, limit %r: validate must pass but raised %s; table %r" % (
                          bad, header, limit, raised, table))
     else:
@@ -269,17 +278,17 @@ def observe(sub, case, table, source, cid_path=None):
         code = run_main(argv)
         expected_code = 1 if reported else 0
         if code != expected_code:
-            _fail(sub, "C07|main|exit-%s-expected-%d|%s|%s" % (code, expected_code, zone, fmt), case,
+            _fail(sub, "C07|main|exit-%s-expected-%d%s|%s" % (code, expected_code, "" if reported else "-" + zone_text, fmt), case,
                      "main(%r) returned %s, expected %d (bad row %r, header %d, limit %r); table %r" % (
                          argv[1:-2] + ["CID", "DATA"], code, expected_code, bad, header, limit, table))
 
 
 # -- family 'bad': enumeration -------------------------------------------------------
-def table_specs(fmt):
+def table_specs(fmt, max_rows=MAX_ROWS):
     """(fmt, header, r, bad, kind, style) for every table of the family."""
     specs = []
     for header in range(MAX_HEADER + 1):
-        for r in range(1, MAX_ROWS + 1):
+        for r in range(1, max_rows + 1):
             for style in ("data", "titles"):
                 if style == "titles" and header == 0:
                     continue
@@ -320,7 +329,7 @@ class _Files(object):
         shutil.rmtree(self.dir, ignore_errors=True)
 
 
-def check_table(sub, files, spec, classes, only=None):
+def check_table(sub, files, spec, classes, only=None, by_path=False):
     """All limits x observers for one table.  Returns (evaluations, nontrivial)."""
     fmt, header, r, bad, kind, style = spec
     table = make_table(fmt, header, r, bad, kind, style)
@@ -332,13 +341,15 @@ def check_table(sub, files, spec, classes, only=None):
     try:
         for limit in limits_for(r):
             observers = ["rows", "validate", "main"] + (["main-1"] if limit is None else [])
+            if by_path and text is not None:
+                observers += ["rows-path", "validate-path"]
             for observer in observers:
                 case = {"family": "bad", "fmt": fmt, "header": header, "rows": r, "bad": bad, "kind": kind,
                         "style": style, "limit": limit, "observer": observer}
                 if only is not None and not only(case):
                     continue
                 local = Sub("x")
-                source = data_path if (observer.startswith("main") or text is None) else text
+                source = text if (text is not None and observer in ("rows", "validate")) else data_path
                 observe(local, case, table, source, cid_path)
                 sub.merge(local)
                 sub.evaluations -= local.evaluations
@@ -365,7 +376,7 @@ def check_table(sub, files, spec, classes, only=None):
 
 
 def _bad_shard(args):
-    index, count, specs = args
+    index, count, specs, by_path = args
     sub = Sub("bad")
     files = _Files()
     classes = {}
@@ -374,7 +385,7 @@ def _bad_shard(args):
         for number, spec in enumerate(specs):
             if number % count != index:
                 continue
-            e, n = check_table(sub, files, spec, classes)
+            e, n = check_table(sub, files, spec, classes, by_path=by_path)
             evals += e
             nontrivial += n
             if number % 97 == 0 and len(sub.samples) < 3:
@@ -506,17 +517,19 @@ def _fault_shard(args):
 
 # -- entry points ---------------------------------------------------------------------
 def run(ctx):
-    specs = table_specs("delimited") + table_specs("fixed")
+    max_rows = ctx.n(MAX_ROWS, MAX_ROWS + 2)  # thorough goes beyond the stated scope (r up to 8)
+    specs = table_specs("delimited", max_rows) + table_specs("fixed", max_rows)
     # spreadsheet files: same tables; quick takes every stride-th one, the start depends on the seed
     stride = ctx.n(6, 1)
     for fmt in ("ods", "excel"):
-        sheet_specs = table_specs(fmt)
+        sheet_specs = table_specs(fmt, max_rows)
         specs += [s for i, s in enumerate(sheet_specs) if (i + ctx.seed) % stride == 0]
     # smallest tables first (the first case recorded for a signature is then a small one); taking every n-th table
     # gives each shard its share of the slow formats
     specs.sort(key=lambda s: (s[2], s[1], s[3] or 0, s[5], str(s[4]), s[0]))
     shards = max(1, ctx.workers * 2)
-    run_shards(ctx, _bad_shard, [(i, shards, specs) for i in range(shards)], case_size)
+    by_path = not ctx.quick  # thorough: delimited and fixed data also handed to the API as a path
+    run_shards(ctx, _bad_shard, [(i, shards, specs, by_path) for i in range(shards)], case_size)
     cases = fault_cases()
     fault_shards = max(1, min(ctx.workers, 8))
     run_shards(ctx, _fault_shard, [(i, fault_shards, cases) for i in range(fault_shards)], case_size)
@@ -532,7 +545,7 @@ def replay(sub, case):
     try:
         wanted = (case["limit"], case["observer"])
         check_table(sub, files, (fmt, header, r, bad, kind, style), {},
-                    only=lambda c: (c["limit"], c["observer"]) == wanted)
+                    only=lambda c: (c["limit"], c["observer"]) == wanted, by_path=True)
         sub.evaluations += 1
     finally:
         files.close()
